@@ -124,7 +124,11 @@ def default_pick(prog, root, keep=(), cross=None):
             same_module_tree = top(g) == top(root) and top(g) != "classic"
             siblings = _os.path.dirname(g.file) == _os.path.dirname(root.file) and not g.path.lstrip("<").startswith(PRIMITIVE_MODULES)
             nested = _os.path.dirname(g.file) == root.file[:-3] or _os.path.dirname(root.file) == g.file[:-3]
-            if not (same_module_tree or siblings or nested):
+            # private helpers gathered in a sub-module tree next to the root (`classic/internal/kx_session.rs`
+            # for `classic/crypto_kx.rs`): still that part of the crate's implementation detail
+            rd = _os.path.dirname(root.file)
+            under = rd.count("/") >= 1 and _os.path.dirname(g.file).startswith(rd + "/") and not g.path.lstrip("<").startswith(PRIMITIVE_MODULES)
+            if not (same_module_tree or siblings or nested or under):
                 return False
         for k in keep:
             if callable(k):
